@@ -215,6 +215,14 @@ namespace
                     if (!m.empty() && (val_of(cx.front()) != m.front() || val_of(cx.back()) != m.back()))
                         violate(std::string("C14/front-back@") + when, "%s: const front()/back() differ from the reference", when);
                 }
+#else
+                {
+                    // the twin's const accessors (its const begin()/end() are covered by the range-for of the algorithms it supports)
+                    const SV &cx = x;
+                    if (!m.empty() && (val_of(cx.front()) != m.front() || val_of(cx.back()) != m.back() || val_of(cx[0]) != m.front() || val_of(cx[m.size() - 1]) != m.back()))
+                        violate(std::string("C14/front-back@") + when, "%s: const front() / back() / operator[] of the std_portable static_vector differ from the reference", when);
+                    if (cx.size() != m.size()) violate(std::string("C14/size@") + when, "%s: const size() differs", when);
+                }
 #endif
             }
             check_deferred();
@@ -688,6 +696,100 @@ namespace
         res.nontrivial = overflow_offered;
     }
     // capacities beyond 16 bits: static_vector<uint8_t, 70000> and static_string<70000> filled past their capacity
+#ifndef C14_TWIN
+    // ---------------------------------------------------------------- static_vector as a base class
+    // A device class derives from its sample buffer and has a virtual base: with an over-aligned element type the container
+    // object ends in tail padding, where the compiler places the virtual base (it is constructed before the container base).
+    // Whatever the container's members do, they stay inside the container's own bytes.
+    struct NamedBase
+    {
+        int id = 0;
+        NamedBase() : id(42) {}
+    };
+    template <class SV> struct ChannelOf : SV, virtual NamedBase
+    {
+    };
+    struct alignas(16) Wide16
+    {
+        int v;
+        Wide16(int x = 0) : v(x) {}
+    };
+    template <class E, size_t N> void run_channel(const Plan &p, Trace &tr, Result &res, const char *what)
+    {
+        typedef igris::static_vector<E, N> SV;
+        typedef ChannelOf<SV> Channel;
+        void *mem = simalloc::raw_alloc(sizeof(Channel));
+        Channel *ch = new (mem) Channel();
+        std::vector<int> m;
+        auto check = [&](const char *when) {
+            if (ch->id != 42)
+                violate("C14/write-outside-storage@base-class", "%s: a %s used as a base class next to a virtual base: the virtual base's member reads %d, its constructor had set 42", when, what, ch->id);
+            if (ch->size() != m.size() || ch->size() > N) violate("C14/size@base-class", "%s: %s as a base class reports size %zu, reference %zu", when, what, ch->size(), m.size());
+        };
+        check("construction");
+        if ((char *)static_cast<NamedBase *>(ch) < (char *)static_cast<SV *>(ch) + sizeof(SV)) probe("virtual_base_in_the_tail_padding");
+        for (auto &o : p.ops)
+        {
+            int k = (int)mod(arg(o, 0), 6);
+            int v = (int)mod(arg(o, 1), 1000);
+            switch (k)
+            {
+            case 0: ch->push_back(E(v)); if (m.size() < N) m.push_back(v); break;
+            case 1: ch->clear(); m.clear(); break;
+            case 2: ch->resize((size_t)(v % (2 * N + 1))); m.resize(std::min<size_t>((size_t)(v % (2 * N + 1)), N), 0); break;
+            case 3: { SV other; other.push_back(E(v)); static_cast<SV &>(*ch) = other; m.assign(1, v); break; }
+            case 4: { SV other; static_cast<SV &>(*ch) = std::move(other); m.clear(); break; }
+            default:
+            {
+                // a second channel built next to the first one (default construction is where a container clears itself)
+                void *mem2 = simalloc::raw_alloc(sizeof(Channel));
+                Channel *c2 = new (mem2) Channel();
+                if (c2->id != 42 || c2->size() != 0) violate("C14/write-outside-storage@base-class", "a freshly constructed %s-derived object has id=%d size=%zu", what, c2->id, c2->size());
+                c2->~Channel();
+                simalloc::raw_free(mem2, sizeof(Channel), "C14");
+                break;
+            }
+            }
+            tr.ev("channel op %d -> %zu", k, m.size());
+            check("after-op");
+        }
+        ch->~Channel();
+        simalloc::raw_free(mem, sizeof(Channel), "C14");
+        res.nontrivial = true;
+    }
+    struct BaseClassWorld : World
+    {
+        const char *name() const override { return PARTNAME "static_vector as a base class next to a virtual base"; }
+        unsigned weight(Tier) const override { return 1; }
+        Plan generate(Rng &r, Tier) override
+        {
+            Plan p;
+            p.cfg = {(int64_t)r.below(4), (int64_t)r.below(2), (int64_t)r.below(3)};
+            int n = (int)r.range(1, 12);
+            for (int i = 0; i < n; i++) p.ops.push_back({(int64_t)r.below(6), (int64_t)r.below(1000)});
+            return p;
+        }
+        std::string describe(const Plan &p) override
+        {
+            std::string s = "element " + std::to_string(mod(p.c(2), 3)) + ":";
+            for (auto &o : p.ops) s += " " + std::to_string(mod(arg(o, 0), 6)) + "(" + std::to_string(arg(o, 1)) + ")";
+            return s;
+        }
+        Result execute(const Plan &p, Trace &tr) override
+        {
+            Result res;
+            simalloc::st().reset((int)p.c(0), p.c(1) != 0);
+            switch ((int)mod(p.c(2), 3))
+            {
+            case 0: run_channel<long double, 2>(p, tr, res, "static_vector<long double,2>"); break;
+            case 1: run_channel<Wide16, 3>(p, tr, res, "static_vector<16-byte-aligned element,3>"); break;
+            default: run_channel<int, 3>(p, tr, res, "static_vector<int,3>"); break;
+            }
+            if (simalloc::live_blocks() != 0) violate("C14/harness", "simulated memory not released");
+            return res;
+        }
+    };
+#endif
     struct BigCapWorld : World
     {
         const char *name() const override { return PARTNAME "capacity 70000"; }
@@ -781,6 +883,10 @@ int main(int argc, char **argv)
     h.property = "C14";
     BigCapWorld wbig;
     h.worlds = {&wi, &wt, &ws, &wh, &wy, &wu, &wbig, &ww, &wnest, &wdflt};
+#ifndef C14_TWIN
+    static BaseClassWorld wbase;
+    h.worlds.push_back(&wbase);
+#endif
 #ifdef C14_TWIN
     h.real = {"igris/container/std_portable.h (static_vector, static_string twins)"};
 #else
